@@ -10,6 +10,8 @@ ASSUMPTIONS = ["the real reader/worker/sorter threads run on virtual threading/q
 
 PARTS = pf_parts.parts("C06")
 
+from . import refine_parts
+PARTS.append(_compose.theorem_part("refine", refine_parts.THEOREMS_BY_PROP.get("C06", []), refine_parts.LEAN_MODULES))
 try:
     from . import pm_parts
     PARTS += pm_parts.parts("C06")
